@@ -1,5 +1,6 @@
 import RimeModel.Session.WellFormed
 import RimeModel.Session.ComposeOK
+import RimeModel.Session.Utf8
 /-!
 C02 — the context reported after any call is well-formed.  Property theorems only.
 
@@ -47,6 +48,25 @@ builds its result, independent of the invariant) -/
 theorem preedit_numeric (c : Comp) (full : Bytes) (caret : Nat) (soft : Bytes) :
     (c.getPreedit full caret soft).WF :=
   getPreedit_wf c full caret soft
+
+/-- **UTF-8 clause**: sel_start, sel_end and the cursor of the reported preedit are character boundaries of the
+preedit text — for EVERY composition (not only reachable ones) whose own input and raw input are ASCII (all the
+key path can produce), whose selected candidates' text / preedit / post-TAB prompt each start a character
+(true of valid UTF-8), and whose soft cursor + prompt starts a character -/
+theorem preedit_utf8_boundaries (c : Comp) (full : Bytes) (caret : Nat) (soft : Bytes)
+    (hci : ∀ b ∈ c.input, b.toNat < 0x80) (hfull : ∀ b ∈ full, b.toNat < 0x80)
+    (hcand : ∀ g ∈ c.segs, ∀ cd, g.selected = some cd → CandOK cd)
+    (hprompt : PieceOK (soft ++ c.prompt)) :
+    let p := c.getPreedit full caret soft
+    Bnd p.text p.selStart ∧ Bnd p.text p.selEnd ∧ Bnd p.text p.caretPos :=
+  getPreedit_boundaries c full caret soft hci hfull hcand hprompt
+
+/-- non-vacuity of the UTF-8 clause: a converted 3-byte character followed by the highlighted raw rest -/
+example :
+    let g1 : Seg := { status := .selected, start := 0, stop := 1, length := 1, menu := some [Cand.mk [0xe6, 0x97, 0xa5] [] [] 0 1 true] }
+    let g2 : Seg := { status := .guess, start := 1, stop := 2, length := 1, menu := some [] }
+    let p := ({ input := [97, 98], segs := [g1, g2] } : Comp).getPreedit [97, 98] 2 []
+    p.text = [0xe6, 0x97, 0xa5, 98] ∧ p.selStart = 3 ∧ p.selEnd = 4 ∧ p.caretPos = 4 := by decide
 
 /-- non-vacuity: a concrete two-candidate state reached by typing `a` is composing and shows a menu -/
 example :
